@@ -78,7 +78,7 @@ def run(ctx):
                 confirmed.append((i, w))
                 continue
             cp, tp = os.path.join(d, "one.cases"), os.path.join(d, "one.trace")
-            vlib.write_ndjson(cp, [dict(sched=lines[i]["sched"])])
+            vlib.write_ndjson(cp, [dict(sched=lines[i]["sched"], via=lines[i]["via"])])
             p = vlib.run_harness(ctx.harness, ["closenotify", "-cases", cp, "-out", tp, "-seed", str(ctx.seed), "-repo", vlib.REPO, "-x", "watchdog=no"], timeout=600)
             l2 = vlib.read_ndjson(tp)
             b2, _ = vlib.tlc_validate(ctx.scratch, "ConnTrace", "ConnTrace.cfg", l2, timeout=300)
@@ -92,10 +92,10 @@ def run(ctx):
     for i, why in bad:
         line = lines[i]
         reason = why.strip().strip('"')
-        term = [e for e in line["sched"] if e in ("x", "xt", "xbig", "eof", "rerr", "lclose", "mp", "mhp", "heof")]
+        term = [e for e in line["sched"] if e in ("x", "xt", "xbig", "eof", "eofd", "rerr", "lclose", "mp", "mhp", "heof", "idle")]
         pre = [e for e in line["sched"][:line["sched"].index(term[0])] if e in ("mh", "mm", "cn")] if term else []
         sig = "%s:%s:req=%s:term=%s" % (line["via"], reason, "+".join(sorted(set(pre))) or "after", term[0] if term else "none")
-        v.report(sig, dict(sched=line["sched"]), detail="steps=%s goroutines=%d dump=%s note=%s" % (json.dumps(line["steps"])[:300], line["goroutines"], line["dump"][:300], line["note"]))
+        v.report(sig, dict(sched=line["sched"], via=line["via"]), detail="steps=%s goroutines=%d dump=%s note=%s" % (json.dumps(line["steps"])[:300], line["goroutines"], line["dump"][:300], line["note"]))
     keys = set(json.dumps([l["via"], l["sched"]]) for l in lines)
     cov = dict(states=r1["distinct"] + ra["distinct"] + rb["distinct"] + g["distinct"] + st["distinct"],
                transitions=r1["generated"] + ra["generated"] + rb["generated"] + g["generated"] + st["generated"],
